@@ -35,7 +35,7 @@ func H_c02(p []int) {
 		skind = -1
 	}
 	switch skind {
-	case vkInt, vkInt64Neg, vkMyInt, vkPubStruct, vkSliceInt, vkArrInt, vkMapStrInt, vkUintptr, vkUint64Big, vkSliceSafe:
+	case vkInt, vkInt64Neg, vkMyInt, vkPubStruct, vkSliceInt, vkArrInt, vkMapStrInt, vkUintptr, vkUint64Big, vkSliceSafe, vkEnumStringer:
 		i = vInt()
 		vAssume(i >= 11)
 		vAssume(i <= 9999)
